@@ -82,6 +82,20 @@ PROPS = {
              "operations in >= 2 sections at an observed step",
         technique="Coq proof (prefix invariant a<=b<=d; close leaves a prefix; cycles) + lock-step correspondence with reopen labels",
     ),
+    "C06": dict(
+        runs=[("fault", "", "faultrun", 160, 3000, 0)],
+        corr={"model:unsurfaced-failure", "model:retry", "driver-error", "harness-error"}, corr_held=False,
+        spec={"spec:fault-lost-or-corrupt", "spec:never-caught-up", "spec:reopen-after-faults"}, spec_held=False,
+        rule="workloads of 3-5 rounds (append persists, leveled partial and forced full compactions, 1 or 512 buffer "
+             "pages, large values so that section writers flush repeatedly) run once clean with every file operation "
+             "recorded, then once per injected failure chosen among the recorded operations: kind open / write / short "
+             "write / sync / stat on that file at that occurrence, bursts of 1, 2, 5 or persisting until cleared; during "
+             "every round the collection's and the store's full content are sampled: collection = reference of all "
+             "batches, store = a batch prefix that never shrinks, a round reporting success contains its batches; "
+             "failures must surface through OnError; persistence must catch up; the reopened directory must serve what "
+             "the store last exposed; non-trivial = the injected failure actually triggered",
+        technique="Coq proof (every failure pattern of a round: success means served, failure surfaced and harmless, old file removed only after a complete footer) + fault injection by predicate on recorded workloads",
+    ),
     "C07": dict(
         runs=[("coll", "store", "flatrun", 320, 6000, 30), TREE + (200, 3000, 30)],
         corr=STRUCT | READS, corr_held=False,
